@@ -142,7 +142,10 @@ fn compare_node(m: &mut Matcher, d: &Dfa, q: u32, prefix: &[u8]) -> Result<(), (
     }
     let mask = match m.compute_mask() {
         Ok(x) => x,
-        Err(_) => return Err(("mask_error_on_live_prefix".into(), json!({"prefix": bytes_dbg(prefix), "stop": format!("{:?}", m.stop_reason())}))),
+        Err(_) => {
+            note_failed_hist(&prefix.iter().map(|&b| b as u32).collect::<Vec<_>>());
+            return Err(("mask_error_on_live_prefix".into(), json!({"prefix": bytes_dbg(prefix), "stop": format!("{:?}", m.stop_reason())})));
+        }
     };
     for b in 0..=254u8 {
         let e = mask.is_allowed(b as u32);
@@ -239,6 +242,10 @@ fn run_case(ctx: &mut Ctx, idx: u64, v1: &Vocab, multi: &[Vocab]) {
     let tags = case.g.tags.clone();
     macro_rules! viol {
         ($kind:expr, $detail:expr) => {{
+            if $kind.starts_with("mask_error") && LAST_FAILED_HIST.with(|h| resource_stop_on_replay(&f1, &case.g, &h.borrow())) {
+                ctx.rep.inconclusive("resource_stop");
+                return;
+            }
             let d = json!({"grammar": case.g.text, "entry": case.entry, "rx_ast": format!("{:?}", case.rx).chars().take(600).collect::<String>(), "oracle": $detail});
             let rp = ctx.replay(idx);
             ctx.rep.violation($kind, &tags, d, rp);
@@ -343,7 +350,11 @@ fn run_case(ctx: &mut Ctx, idx: u64, v1: &Vocab, multi: &[Vocab]) {
             }
             let q = d.run(pre);
             let Ok(mask) = me.compute_mask() else {
-                viol!("mask_error_on_live_prefix", json!({"prefix": bytes_dbg(pre), "vocab": v.name}));
+                if resource_stop_on_replay(&fv, &case.g, &toks) {
+                    ctx.rep.inconclusive("resource_stop");
+                    continue;
+                }
+                viol!("vocab_mask_error_on_live_prefix", json!({"prefix": bytes_dbg(pre), "vocab": v.name}));
             };
             ctx.rep.inc("vloop_states");
             for t in 0..v.n() as u32 {
